@@ -44,9 +44,15 @@ CHECKS = {
  "C12": dict(
   engine="SCHED",
   technique="stateless model checking of the implementation: controlled cooperative scheduler + deviation-bounded DFS over thread schedules, brute-force linearizability against sequential runs, vector-clock happens-before race detection on instrumented maps",
-  text="Two client threads issue one operation each on shared ids of one location for ALL unordered pairs of 9 operations (AddFact x2 values, RemFact, GetFact, SearchFacts, AddRule, RemRule, EnableRule, ProcessEvent), from an empty and a populated location, on both states; every schedule with at most 1 deviation (quick) / 2 (thorough; plus 3 threads and 2+1 operations over a 5-operation alphabet) is executed on the real code under a scheduler that owns every lock, goroutine spawn, channel operation and timer. Per schedule: the call/return history must be explained by a real-time-respecting sequential order (run on a fresh location), final private state and storage must equal that order's, no deadlock (Go's RWMutex writer preference is modelled), no escaped panic, no happens-before race on any instrumented map.",
+  text="Two client threads issue one operation each on shared ids of one location for ALL ordered pairs of 9 operations (AddFact x2 values, RemFact, GetFact, SearchFacts, AddRule, RemRule, EnableRule, ProcessEvent), from an empty and a populated location, on both states; every schedule with at most 3 deviations (quick) / 4 (thorough; plus 3 threads and 2+1 operations over a 5-operation alphabet) is executed on the real code under a scheduler that owns every lock, goroutine spawn, channel operation and timer. Per schedule: the call/return history must be explained by a real-time-respecting sequential order (run on a fresh location), final private state and storage must equal that order's, no deadlock (Go's RWMutex writer preference is modelled), no escaped panic, no happens-before race on any instrumented map.",
   note="Sequential consistency is assumed for racy code (races themselves are reported). Visible: rulio's sync, go statements, channels, timers, map accesses; not visible: slice elements, pointer fields, otto internals. 2-3 clients of the property's 2..8. A JavaScript timeout landing early is excluded here (C14).",
   design="2/C12"),
+ "C14": dict(
+  engine="GEN+SCHED",
+  technique="stateless model checking under a controlled scheduler with virtual time as a participant: deviation-bounded DFS over schedules and timer landings of script family x timeout setting x context; native real-time deadline only for busy loops",
+  text="9 script families (value, binding, throwing, undefined variable, syntax error, non-terminating with Env.sleep, slow-but-finishing at 4/6/12 ms) x 12 timeout settings (Control.JavascriptTimeout {0,5ms,negative} x DefaultJavascriptTimeout {10ms,negative} x JavascriptTimeouts on/off) x 3 contexts (Location.RunJavascript, rule condition, rule action through ProcessEvent) run under the scheduler with virtual time; every schedule with at most 2 deviations (3 thorough), where the watchdog timer landing early at any scheduling point is a deviation. The caller must return on every schedule; an overrunning script must yield an error / non-complete node within limit + one wait quantum; throwing and invalid scripts yield errors; within-limit scripts return their value. Busy loops without a scheduling point run natively in child processes against a 20 s deadline (3 isolated runs).",
+  note="Code between scheduling points takes no virtual time; an early timer landing models slow real execution, so a finishing script may then end either way (but never hang, never success with a nil value).",
+  design="2/C14"),
  "C19": dict(
   engine="GEN+SEQ",
   technique="exhaustive enumeration of the product protection state x caller context x operation x set-up history on the real Location (directly and via sys.System), privileged before/after snapshot and unprotected-twin oracle",
